@@ -92,6 +92,7 @@ class Machine:
         self._vm_discover = VmDiscover(self._call_stack, self._reg)
         self._enable_pause = True
         self._keep_running = True
+        self._stop_requested = False
         excluded = (OpCode.STOP, OpCode.ROUTINE)
         op_codes = [code for code in OpCode if code not in excluded]
         self._fn_table = {
@@ -116,7 +117,8 @@ class Machine:
         loader.load(program)
         self._routines = loader.get_routines()
         self._program = loader.get_code()
-        self._keep_running = True
+        # A stop request may arrive before the run gets here.
+        self._keep_running = not self._stop_requested
 
         logging.debug('Starting to execute.')
         self._clock.start()
@@ -139,8 +141,10 @@ class Machine:
         except Exception as ex:
             logging.error("Machine stopped due to {} at instruction {}"
                           .format(ex, self._reg.pc))
+        self._stop_requested = False
 
     def stop(self) -> None:
+        self._stop_requested = True
         self._keep_running = False
         self._clock.stop()
 
